@@ -1,6 +1,52 @@
-import GlyProofs.Front.WalkDen
-/- C05 — placeholder obligations until the splice algebra lands (see DESIGN.md). -/
+import GlyProofs.Smiles.Graft
+/-
+  C05 — Condensation mass balance. (Property theorems only.)
+-/
 namespace Gly.Props.C05
-open Gly
-theorem C05_walk_children_order (w : WalkCfg) (s : Start) : walkStart w s = denStart w s := walkStart_eq_denStart w s
+open Gly Gly.Smi
+
+def ringOpens (es : List Ev) : Nat := es.countP (fun e => match e with | .ropen _ _ _ => true | _ => false)
+
+theorem ringOpens_map (f : Nat → Nat) (es : List Ev) : ringOpens (es.map (Ev.map f)) = ringOpens es := by
+  induction es with
+  | nil => rfl
+  | cons e es ih =>
+    cases e <;> simp [ringOpens, Ev.map, List.countP_cons] at ih ⊢ <;> omega
+
+theorem ringOpens_append (a b : List Ev) : ringOpens (a ++ b) = ringOpens a + ringOpens b := by
+  simp [ringOpens, List.countP_append]
+
+/-- **Atom balance of one splice**, for every way of counting atoms (`P` = "is an oxygen", "is a stereo carbon", …):
+    the result has the atoms of the marked parent and of the block, minus the marker atom – whatever the residues are. -/
+theorem C05_atoms (S A B c : St) (M : Atom) (as : List Atom) (P : Atom → Bool)
+    (hA : A.atoms = S.atoms ++ [M] ++ as) (hB : B.atoms = S.atoms ++ c.atoms ++ as) :
+    B.atoms.countP P + [M].countP P = A.atoms.countP P + c.atoms.countP P := by
+  rw [hA, hB]; simp only [List.countP_append]; omega
+
+/-- **Bond and ring balance of one splice**: the result has the bonds of both parts (the bond to the marker becomes the
+    glycosidic bond) and its number of ring closures is the sum of theirs – also when ring labels are re-used. -/
+theorem C05_bonds_and_rings (S A B c : St) (e0 : Ev) (es : List Ev) (f g : Nat → Nat)
+    (hA : A.evs = S.evs ++ [e0] ++ es)
+    (hB : B.evs = S.evs ++ [e0] ++ c.evs.map (Ev.map f) ++ es.map (Ev.map g)) :
+    B.evs.length = A.evs.length + c.evs.length ∧ ringOpens B.evs = ringOpens A.evs + ringOpens c.evs := by
+  rw [hA, hB]
+  constructor
+  · simp; omega
+  · simp only [ringOpens_append, ringOpens_map]; omega
+
+/-- Both together for the graft of `Gly.Smi.graft`: instantiate with its conclusion. -/
+theorem C05_graft_balance (pre post C' : List Tok) (M c0 : Atom) (S A c : St) (p : Nat) (P : Atom → Bool)
+    (hpre : run St.init pre = some S) (hp : S.prev = some p)
+    (hA : run St.init (pre ++ [Tok.atom M] ++ post) = some A)
+    (hleaf : post = [] ∨ ∃ post', post = Tok.rpar :: post')
+    (hc : run St.init (Tok.atom c0 :: C') = some c) (hclosed : c.stack = [] ∧ c.opens = [] ∧ c.pend = none)
+    (hlab : ∀ l ∈ labelsOf C', lookupLabel l S.opens = none) :
+    ∃ B, run St.init (pre ++ (Tok.atom c0 :: C') ++ post) = some B ∧
+      B.atoms.countP P + [M].countP P = A.atoms.countP P + c.atoms.countP P ∧
+      B.evs.length = A.evs.length + c.evs.length ∧
+      ringOpens B.evs = ringOpens A.evs + ringOpens c.evs := by
+  obtain ⟨B, as, es, hB, ea, ee, fa, fe, _, _, _⟩ := graft pre post C' M c0 S A c p hpre hp hA hleaf hc hclosed hlab
+  refine ⟨B, hB, C05_atoms S A B c M as P ea fa, ?_⟩
+  exact C05_bonds_and_rings S A B c _ es _ _ ee fe
+
 end Gly.Props.C05
